@@ -260,6 +260,10 @@ Q7:
 
 	iter.state[j]++
 	j--
+	for iter.state[j] == 0 {
+		//Skip over the types with no copies allowed. This terminates as state[0] > 0.
+		j--
+	}
 	iter.state[j]--
 	if iter.state[0] == 0 {
 		j = 1
